@@ -1,5 +1,5 @@
 """X02 (extension) — the bootstrap connection supervisor: rounds, fallback to backup peers, saving, Close (spec/Bootstrap)."""
-import json, re, threading
+import json, os, re, threading
 
 SPEC = "Bootstrap"
 PKG = "bootstrap"
@@ -45,18 +45,22 @@ def split_runs(recs):
 def phase_m(ctx, q):
     ctx.tlc_mc(SPEC, "MCBootstrap.tla", "MCBootstrapQ.cfg" if q else "MCBootstrap.cfg", timeout=5400,
                coverage=not q, deadlock=False, allow_zero=("ALStuck",))
-    for cfg, want in (("MCBootstrapDev1.cfg", "PeriodicRounds"), ("MCBootstrapDev1b.cfg", "CancelledQuiet"),
-                      ("MCBootstrapDev2.cfg", "SaveWithinLimit")):
+    ctl = [("MCBootstrapDev1.cfg", "PeriodicRounds"), ("MCBootstrapDev2.cfg", "SaveWithinLimit")]
+    if not q:
+        ctl.append(("MCBootstrapDev1b.cfg", "CancelledQuiet"))
+    for cfg, want in ctl:
         r = ctx.tlc_mc(SPEC, "MCBootstrap.tla", cfg, timeout=1800, deadlock=False, expect_violation=want)
         if not (r["violated"] and want in r["violated"]):
             ctx.broken("model sensitivity: %s should violate %s but gave %s" % (cfg, want, r["violated"]))
 
 
 def validate(ctx, recs, name, timeout):
-    """accept with no deviation, else with a single open one, else with all open ones; anything else is a violation"""
+    """accept with no deviation, else with the open ones (reported: those an accepting explanation used; a run too short to
+    tell a blocked supervisor from an idle one may list Dev_X02_NoPeriodicWithoutBackup without strictly needing it);
+    anything else is a violation"""
     tr = ctx.write_ndjson(name + ".ndjson", recs)
     od = sorted(d for d in ctx.open_devs() if d != "Dev_X02_InvalidConfigPanics")
-    tries = [()] + ([(d,) for d in od] if len(od) > 1 else []) + ([tuple(od)] if od else [])
+    tries = [()] + ([tuple(od)] if od else [])
     best = None
     for devs in tries:
         res = ctx.tlc_trace(SPEC, TRACE_MODULE, TRACE_CFG, tr, timeout=timeout, devs=devs)
@@ -131,10 +135,11 @@ def run(ctx):
                        "G: every round case for 3 peers (thr 0-2/0-3, timeout 0,3/0,1,3, backup list <= 2, outcome ok/fail/hang per diallable peer), "
                        "every save case (3 peers, old list <= 2/3 with duplicates, limit 0-2/0-3), sampled boundary configurations; "
                        "non-trivial = a round that reaches the backup phase or dials >= 2 peers / a save that merges old entries. "
-                       "T: 6 directed + 140/1500 random command scripts of 13-35 commands on 4 peers.")
+                       "T: 6 directed + 140/1000 random command scripts of 13-35 commands on 4 peers.")
     ctx.open_devs()
     ctx.specdir(SPEC)
-    th = threading.Thread(target=phase_m, args=(ctx, q))
+    skip_m = bool(os.environ.get("VERIF_SKIP_M"))       # self-test convenience: the model does not depend on the repo
+    th = threading.Thread(target=(lambda *a: None) if skip_m else phase_m, args=(ctx, q))
     th.start()
     try:
         body(ctx, q)
@@ -146,10 +151,10 @@ def run(ctx):
 def body(ctx, q):
     binp = ctx.go_build(PKG, ["bootstrap/zz_verif_X02_test.go"])
     # ---- G
-    rounds = ctx.tlc_gen(SPEC, "GenBootstrap.tla", "GenRound.cfg" if q else "GenRoundBig.cfg", timeout=1800)
-    saves = ctx.tlc_gen(SPEC, "GenBootstrap.tla", "GenSave.cfg" if q else "GenSaveBig.cfg", timeout=1800)
-    valids = ctx.tlc_gen(SPEC, "GenBootstrap.tla", "GenValid.cfg", timeout=600)
+    cases = ctx.tlc_gen(SPEC, "GenBootstrap.tla", "GenBootstrap.cfg" if q else "GenBootstrapBig.cfg", timeout=3600)
+    rounds, saves, valids = ([c for c in cases if c.get("kind") == k] for k in ("round", "save", "valid"))
     if not (rounds and saves and valids):
+        ctx.broken("generator produced no cases of some kind: %d round, %d save, %d valid" % (len(rounds), len(saves), len(valids)))
         return
     valids = pick_valid(ctx, valids, 16 if q else 120)
     nt_round = lambda c: (not c["exp"]["skip"]) and (len(c["exp"]["p2"]["dials"]) >= 1 or len(c["exp"]["p1"]["dials"]) >= 2)
